@@ -139,3 +139,122 @@ func DeadPort() uint16 {
 	ln.Close()
 	return p
 }
+
+// TCPRelay sits in front of a real server's sync port. Each accepted
+// connection consumes one prepared outcome: "pass" forwards request and reply
+// unchanged; the others inject a failure.
+type TCPRelay struct {
+	Port   uint16
+	target string
+	ln     net.Listener
+	mu     sync.Mutex
+	plan   []RelayOutcome
+	conns  int
+	wg     sync.WaitGroup
+}
+
+type RelayOutcome struct {
+	Kind string // pass, close, reset, short, garbage
+	Keep int    // short: how many reply bytes to forward
+	Raw  []byte // garbage: what to send instead
+}
+
+func NewTCPRelay(targetPort uint16) *TCPRelay {
+	ln, err := net.Listen("tcp", "127.0.0.1:0")
+	must(err)
+	r := &TCPRelay{ln: ln, Port: uint16(ln.Addr().(*net.TCPAddr).Port), target: net.JoinHostPort("127.0.0.1", itoa(int(targetPort)))}
+	r.wg.Add(1)
+	go r.loop()
+	return r
+}
+
+func itoa(n int) string {
+	if n == 0 {
+		return "0"
+	}
+	var b []byte
+	for n > 0 {
+		b = append([]byte{byte('0' + n%10)}, b...)
+		n /= 10
+	}
+	return string(b)
+}
+
+// Retarget points the relay to another server port (after a server restart).
+func (r *TCPRelay) Retarget(port uint16) {
+	r.mu.Lock()
+	r.target = net.JoinHostPort("127.0.0.1", itoa(int(port)))
+	r.mu.Unlock()
+}
+
+// Plan sets the outcomes of the next connections (the default is "pass").
+func (r *TCPRelay) Plan(p []RelayOutcome) {
+	r.mu.Lock()
+	r.plan = append([]RelayOutcome(nil), p...)
+	r.mu.Unlock()
+}
+
+func (r *TCPRelay) Conns() int {
+	r.mu.Lock()
+	defer r.mu.Unlock()
+	return r.conns
+}
+
+func (r *TCPRelay) loop() {
+	defer r.wg.Done()
+	for {
+		conn, err := r.ln.Accept()
+		if err != nil {
+			return
+		}
+		r.mu.Lock()
+		r.conns++
+		out := RelayOutcome{Kind: "pass"}
+		if len(r.plan) > 0 {
+			out = r.plan[0]
+			r.plan = r.plan[1:]
+		}
+		target := r.target
+		r.mu.Unlock()
+		r.wg.Add(1)
+		go func() {
+			defer r.wg.Done()
+			defer conn.Close()
+			conn.SetDeadline(time.Now().Add(10 * time.Second))
+			switch out.Kind {
+			case "close":
+				return
+			case "reset":
+				if tc, ok := conn.(*net.TCPConn); ok {
+					tc.SetLinger(0)
+				}
+				return
+			}
+			req := make([]byte, 4)
+			if _, err := io.ReadFull(conn, req); err != nil {
+				return
+			}
+			if out.Kind == "garbage" {
+				conn.Write(out.Raw)
+				return
+			}
+			up, err := net.DialTimeout("tcp", target, 5*time.Second)
+			if err != nil {
+				return
+			}
+			defer up.Close()
+			up.SetDeadline(time.Now().Add(10 * time.Second))
+			up.Write(req)
+			reply, _ := io.ReadAll(up)
+			if out.Kind == "short" && out.Keep < len(reply) {
+				reply = reply[:out.Keep]
+			}
+			conn.Write(reply)
+		}()
+	}
+}
+
+func (r *TCPRelay) Close() {
+	r.ln.Close()
+	r.wg.Wait()
+}
